@@ -17,8 +17,7 @@ def run(ctx):
     for d in ("ad_le", "ad_max_only", "ad_high", "ad_newonly"):
         ctx.mc("MC_Adaptive", "MC_Adaptive_" + d, workers=2, expect_violation="AbsOK")
     if ctx.replay:
-        scen = [json.load(open(ctx.replay))["trace"]["scenario"]]
-        scen[0].pop("tid", None)
+        scen = ctx.replay_scenarios()
     else:
         scen = ctx.gen("Gen_C15", "Gen_C15_exh")
         n = 150 if q else 1500
